@@ -591,6 +591,7 @@ def run_check(prop, tier, seed, args):
     from .cli import classify_known, verify_replay_fresh
 
     seen = set()
+    unreproduced = []
     for r in agg.violations:
         v = r["violation"]
         if v["inv"] in seen:
@@ -600,26 +601,43 @@ def run_check(prop, tier, seed, args):
 
         with Watchdog(900, f"minimisation of {prop} run {r['i']}"):
             mdesc, ok = minimise(prop, v["desc"], v["inv"])
-        if not ok:
-            print(f"HARNESS-ERROR violation of run {r['i']} ({v['inv']}: {v['detail']}) did not reproduce in-process", file=sys.stderr)
+        # shrunk first; if that does not fail in a fresh interpreter (the tree keeps state
+        # across executions), the run exactly as the worker executed it
+        cands = ([mdesc] if ok else []) + [v["desc"]]
+        done = False
+        why = f"violation of run {r['i']} ({v['inv']}: {v['detail']}) did not reproduce in-process"
+        for ci, cdesc in enumerate(cands):
+            vv, summ = execute(prop, cdesc)
+            if vv is None or vv.inv != v["inv"]:
+                continue
+            payload = {"property": prop, "engine": "P", "seed": seed, "run_index": r["i"], "invariant": vv.inv, "detail": str(vv.detail),
+                       "desc": cdesc, "schedule_trace_digest": summ["trace_digest"], "exit_codes": summ["tasks"], "tree_hash": boot.TREE_HASH}
+            if cdesc is not mdesc or not ok:
+                payload["note"] = "not minimised: the shrunk schedule did not fail in a fresh interpreter"
+            known = classify_known(prop, payload)
+            if known is not None:
+                print(f"KNOWN-FINDING: property={prop} {known['what']}")
+                agg.known.append(known["id"])
+                done = True
+                break
+            path = write_replay(prop, seed, r["i"], payload)
+            okf, outp = verify_replay_fresh(prop, path, payload["invariant"])
+            if not okf:
+                why = f"replay {path} of run {r['i']} ({v['inv']}) did not reproduce in a fresh interpreter:\n{outp}"
+                continue
+            print(f"VIOLATION property={prop} replay={path}")
+            print(f"  invariant={vv.inv} run={r['i']} seed={seed} items={len(cdesc['items'])} n_workers={cdesc['n_workers']}")
+            print(f"  detail: {vv.detail}")
+            rc = 1
+            done = True
+            break
+        if not done:
+            unreproduced.append(why)
+    if unreproduced:
+        for u in unreproduced:
+            print(("NOTE " if rc == 1 else "HARNESS-ERROR ") + u, file=sys.stderr)
+        if rc == 0:
             return 2
-        vv, summ = execute(prop, mdesc)
-        payload = {"property": prop, "engine": "P", "seed": seed, "run_index": r["i"], "invariant": vv.inv, "detail": str(vv.detail),
-                   "desc": mdesc, "schedule_trace_digest": summ["trace_digest"], "exit_codes": summ["tasks"], "tree_hash": boot.TREE_HASH}
-        known = classify_known(prop, payload)
-        if known is not None:
-            print(f"KNOWN-FINDING: property={prop} {known['what']}")
-            agg.known.append(known["id"])
-            continue
-        path = write_replay(prop, seed, r["i"], payload)
-        okf, outp = verify_replay_fresh(prop, path, payload["invariant"])
-        if not okf:
-            print(f"HARNESS-ERROR minimised replay {path} did not reproduce in a fresh interpreter:\n{outp}", file=sys.stderr)
-            return 2
-        print(f"VIOLATION property={prop} replay={path}")
-        print(f"  invariant={vv.inv} run={r['i']} seed={seed} items={len(mdesc['items'])} n_workers={mdesc['n_workers']}")
-        print(f"  detail: {vv.detail}")
-        rc = 1
     anchors = None
     if anchor_proc is not None:
         import json as _json
